@@ -288,3 +288,13 @@ def c02_catalogue(quick):
     out.append(scenario('offer-span', offer, dict(spanhosts=1, pagereq=1), N=1))
     out.append(scenario('offer-norecursion', offer, dict(recursive=0, pagereq=1), N=1))
     return out
+
+
+def c02_crash_catalogue(quick):
+    out = [scenario('crash-foreign-link', [U(1, links=[2, 3]), U(2, host='b.test', links=[4]), U(3, links=[2]),
+                                            U(4, host='b.test')], N=1)]
+    if not quick:
+        out.append(scenario('crash-foreign-requisite', [U(1, links=[dict(to=2, inline=1), 3]), U(2, host='b.test'),
+                                                         U(3, links=[dict(to=4, inline=1)]), U(4, host='b.test')],
+                            dict(pagereq=1), N=2))
+    return out
